@@ -13,6 +13,7 @@
   tie-break by name: 3370634).  The `…_before_repair` theorems pin the old behaviour as regression facts.
 -/
 import BioCantor.Proofs.QualBiotype
+set_option autoImplicit false   -- an unresolved name in a statement must be an error, never a bound variable
 namespace BioCantor.Props.C18
 open BioCantor BioCantor.Spec.Qual BioCantor.Model.Qual BioCantor.Proofs.Qual
 
